@@ -195,3 +195,30 @@ func ZZ_C11_H2() {
 		(whole.err2 == nil) == (cut.err2 == nil) && whole.status2 == cut.status2 && bytes.Equal(whole.body2, cut.body2)
 	zz.Assert("same-result-under-segmentation", same)
 }
+
+// ZZ_C03_CLI: client response read path under corruption: every position of every response
+// template holds W symbolic bytes; the reader (buffered and streaming, with and without a size
+// limit) never panics (every Go run-time check on the way is an implicit assertion). Lenient
+// acceptance (e.g. a two-digit status code) is not a C03 violation and is not asserted.
+func ZZ_C03_CLI() {
+	t := zz.Choose("tmpl", len(zzRespTemplates))
+	wire := []byte(zzRespTemplates[t].wire)
+	for i := range wire {
+		if wire[i] == 'B' {
+			wire[i] = 'x'
+		}
+		if wire[i] == 'V' {
+			wire[i] = 'v'
+		}
+	}
+	w := zz.Param("W", 1)
+	p := zz.Range("pos", 0, len(wire)-w)
+	sym := zz.Bytes("sym", w)
+	copy(wire[p:], sym)
+	stream := zz.Choose("stream", 2) == 1
+	maxBody := []int{0, 2}[zz.Choose("maxbody", 2)]
+	v := zzClientRead(wire, nil, stream, maxBody, false)
+	zz.Cover("reached-end", true)
+	zz.Cover("accepted", v.err == nil)
+	zz.Cover("rejected", v.err != nil)
+}
